@@ -17,7 +17,8 @@ use crate::wire;
 pub struct C14;
 
 fn svc(k: u64, probe: bool) -> SvcSpec {
-    SvcSpec { ty: "_http._tcp.local.".into(), instance: format!("shut{k}"), host: format!("shuthost{k}.local."), addrs: vec!["192.168.1.10".into()], port: 8000 + k as u16, txt: vec![], addr_auto: false, probe, intfs: None, link_local_only: false, txt_via: None }
+    // (instance names with capital letters from the second service on: tables are keyed in lower case)
+    SvcSpec { ty: "_http._tcp.local.".into(), instance: if k == 0 { "shut0".to_string() } else { format!("Shut Down {k}") }, host: format!("shuthost{k}.local."), addrs: vec!["192.168.1.10".into()], port: 8000 + k as u16, txt: vec![], addr_auto: false, probe, intfs: None, link_local_only: false, txt_via: None }
 }
 
 /// One client call of kind k using reply slot `slot`.
@@ -89,10 +90,18 @@ impl Property for C14 {
             s.op(if late { T_BURST - 300 } else { 100 + k * 50 }, Op::Register { d: 0, svc: svc(k, late || rng.bool()) });
             n_cmds += 1;
         }
-        let n_b = rng.below(3);
+        // 0-2 browses; in a quarter of the worlds 3-6 of which one or two receivers are dropped by the client (without
+        // stop_browse) before the shutdown
+        let many = rng.below(4) == 0;
+        let n_b = if many { 3 + rng.below(4) } else { rng.below(3) };
         for k in 0..n_b {
             s.op(200 + k * 10, Op::Browse { d: 0, ty: ty_name(k), slot: 10 + k as u32 });
             n_cmds += 1;
+        }
+        if many {
+            for _ in 0..1 + rng.below(2) {
+                s.op(400, Op::DropSlot { d: 0, slot: 10 + rng.below(n_b) as u32 });
+            }
         }
         if rng.bool() {
             s.op(300, Op::ResolveHost { d: 0, host: "somehost.local.".into(), timeout: if rng.bool() { Some(60_000) } else { None }, slot: 20 });
@@ -275,6 +284,10 @@ impl Property for C14 {
                 Op::ResolveHost { slot, .. } => (*slot, false),
                 _ => continue,
             };
+            if scn.ops.iter().any(|o| matches!(&o.op, Op::DropSlot { slot: s2, .. } if *s2 == slot)) {
+                j.probe("receiver-dropped-before-shutdown");
+                continue; // the client dropped this receiver: nothing is observed on it
+            }
             // open at exit? (dequeued before Exit and not stopped / timed out)
             let evs: Vec<&Ev> = tr.events.iter().filter(|e| e.d == d && e.slot == slot && !matches!(e.ev, EvKind::Disconnected)).collect();
             if evs.is_empty() {
